@@ -27,8 +27,8 @@ func VerifHandleRequest(clientID string, req *ntp.Packet, rxt, txt *time.Time, r
 	handleRequest(clientID, req, rxt, txt, resp)
 }
 
-func VerifUpdateTXTimestamp(clientID string, rxt time.Time, txt *time.Time) {
-	updateTXTimestamp(clientID, rxt, txt)
+func VerifUpdateTXTimestamp(clientID string, rxt, txt0 time.Time, txt *time.Time) {
+	updateTXTimestamp(clientID, rxt, txt0, txt)
 }
 
 // VerifSnapshot returns a copy of the records kept for clientID.
